@@ -261,6 +261,14 @@ def compress_case(ck, batch, scratch, name, fmt, fault, body, content, old, smal
             ck.disagree(f"compress {name!r} fmt={fmt}: the injected fault '{fault}' was never reached (hook point moved?)", case)
         if fault is not None and known and inj.fired and exc is None:
             ck.violation("fault-swallowed", f"injected fault {fault} was raised inside compress but did not surface", case)
+        # a failure BEFORE compress_as has opened the target (temporary directory, missing / unreadable source, opening the
+        # target itself, a constructor that raises before it opens anything) must leave an existing target as it was
+        before_open = known and exc is not None and not body_raised and (
+            fault == "mkTmpDir" or (fault == "openSrc" and eff != "zip") or (fault == "openTarget" and eff == "gz") or
+            (fault == "ctor" and eff != "gz") or (body == "idle" and eff != "zip" and fault in (None, "copy", "openSrc", "openTarget")))
+        if before_open and isinstance(old, bytes) and tstate != old:
+            ck.violation("target-destroyed-before-open", f"compress({name!r}) failed before the target was opened (fault={fault}, body={body}) "
+                                                         f"but the existing target is {'gone' if tstate is None else 'changed'}", case)
         success = exc is None
         if success and known and body == "write":
             got = read_archive(tstate) if isinstance(tstate, bytes) else None
@@ -482,7 +490,8 @@ class Batch:
 # ---------------------------------------------------------------- exploration
 NAMES = ["x.{f}", "a.b.c.{f}", "archive.tar.{f}", "d.x/a.b.{f}", "sp ace.{f}", "ünï€.{f}", "..hidden.{f}", "a..{f}", "UPPER.NC.{f}",
          "x.{f}.{f}"]
-PASS_NAMES = ["plain.dat", "noext", ".gz", "a.gz.", "a.GZ", "x.gzip", "x.zip.txt", "d.gz/file", "...xz", "x.lzma", "x.tar"]
+PASS_NAMES = ["plain.dat", "noext", ".gz", "a.gz.", "a.GZ", "x.gzip", "x.zip.txt", "d.gz/file", "...xz", "x.lzma", "x.tar",
+              "DATA.GZ", "scan.Bz2", "ARCHIVE.ZIP", "x.Xz", "x.gZ", "a.tar.BZ2"]          # suffixes are case sensitive
 
 
 def contents(rng, thorough):
@@ -549,7 +558,7 @@ def explore(ck, batch, scratch, n_random, thorough):
         for f in ("gz", "zip"):
             names_case(ck, batch, name, f)
             compress_case(ck, batch, scratch, name, f, None, "write", small[2], None)
-    for f in ("rar", "tgz", "GZ", ".gz"):
+    for f in ("rar", "tgz", "GZ", ".gz", "Zip", "XZ", "bZ2"):
         names_case(ck, batch, "x.gz", f)
         compress_case(ck, batch, scratch, "x.gz", f, None, "write", small[2], None)       # unknown fmt= wins over the suffix
     # --- random scenarios
